@@ -2038,6 +2038,10 @@ pub fn find_stmts(b: &Block, anchor: &str, nth: usize, until: Option<&str>) -> O
                                     break;
                                 }
                             }
+                            // `slice_until=$` : up to the end of the enclosing block
+                            if u == "$" {
+                                closed = true;
+                            }
                             if !closed {
                                 // until-anchor not among the following siblings: report as not found
                                 self.left = usize::MAX;
